@@ -11,6 +11,8 @@ CONSTANTS
   MaxTouched = 3
   GenMaxMixed = 2
   GenWithRepeat = FALSE
+  MaxPasses = 1
+  ReKeys = {}
   AsCoded = FALSE
-INVARIANTS TypeOK Completeness SoundNonCancelling SingleFaultDetected C32_AggExact
+INVARIANTS TypeOK ObjectsCurrent Completeness SoundNonCancelling SingleFaultDetected C32_AggExact
 CHECK_DEADLOCK FALSE
